@@ -117,7 +117,11 @@ bool BuildNode::configureAttribute(const ConfigureContext& ctx, StringRef name,
     exclusionPatterns = basic::StringList(values);
     return true;
   } else if (name == "must-scan-after-paths") {
-    mustScanAfterPaths = basic::StringList(values).getValues();
+    // Copy the values, the list they are given in does not outlive this call.
+    mustScanAfterPaths.clear();
+    for (auto value: values) {
+      mustScanAfterPaths.push_back(value.str());
+    }
     return true;
   }
 
